@@ -8,6 +8,7 @@ from __future__ import annotations
 import hashlib
 import json
 import os
+import shutil
 import random
 import sys
 import tempfile
@@ -251,6 +252,8 @@ def main(argv=None):
         return 2
     finally:
         os.chdir("/")
+        if not os.environ.get("VERIF_KEEP_WORK"):   # also after a machinery failure: nothing is left under /tmp
+            shutil.rmtree(ctx.work, ignore_errors=True)
     return rc
 
 
